@@ -34,7 +34,11 @@ classes, keys and counters, same laws): ``instance-trait/``, ``shared-owner-chur
 ``comparison-mode/`` (dependencies declared with comparison mode none / identity / equality that
 receive the identical object, an equal-but-distinct object or an unequal one; identity-sensitive
 getters) and ``property-chain/`` (an intermediate node of the observe path is itself a Property,
-i.e. a value that is never stored, only announced).  The legacy
+i.e. a value that is never stored, only announced) and ``overlapping-paths/`` (one Property
+with SEVERAL observe paths that overlap -- a prefix of another path, the same names below different
+attributes holding the SAME holder, the same path twice -- over graphs with shared holders;
+histories cut one route, replace containers on the still-reachable shared part, then change
+leaves).  The legacy
 ``Property(depends_on=...)`` strata (``depends_on/...``) exist but are switched off in
 ``run()``: the statement is about ``observe=`` only.
 """
@@ -108,6 +112,24 @@ META = {
              "(its value derives from a per-instance default) and the intermediate property is "
              "uncached (in the main chain stratum a change of any element counts as possibly reaching "
              "the dependents of the uncached intermediate).  "
+             "overlapping-paths/: one Property declares SEVERAL observe paths that overlap (14 "
+             "properties x 3 classes giving the paths as one string / or-ed expressions / a mix of "
+             "string lists and expression lists): a path that is a prefix of another one, listed "
+             "before or after it, below two attributes (a.kids.items.x with b.kids.items; a.one.x "
+             "with b.one) or below the same attribute; paths that run through the same names and "
+             "differ in the leaf only; the same path twice through two attributes; three routes of "
+             "three lengths; the same one level deeper (a.sub.kids.items.x, b.sub.kids.items, "
+             "c.sub); a list of holders together with an attribute (hs.items.kids.items.x with "
+             "a.kids.items).  The object graphs have SHARED holders (owner.a is owner.b, a holder "
+             "that is in owner.hs -- also twice -- and at owner.a, two holders with one sub-holder, "
+             "kids repeated in and shared between lists, holders shared between an owner and its "
+             "shallow clones); histories cut one route while the holder stays reachable over another "
+             "(counted), replace the container on such a holder (biased, counted) or mutate it in "
+             "place, then change leaves of the new elements (biased, counted), besides re-routing, "
+             "holder-list operations, trait_set of several routes, Instance / sub-holder "
+             "replacement, irrelevant writes and copies (pickle 2-5, deepcopy, clone_traits default "
+             "/ deep / shallow; up to three owners live and judged).  One mutation may reach such a "
+             "property once per declared path, so the at-most-once window is per path and event.  "
              "The legacy depends_on strata are switched off (outside the statement).  "
              "distinct_nontrivial counts distinct (class flavour, listener mode, operation kind, "
              "origin of the operated object, set of dependency kinds whose state changed on it, "
@@ -151,7 +173,15 @@ META = {
                   "chain_changes_of_an_object_reached_through_a_property": 1200,
                   "chain_path_end_changes_on_pickle": 250,
                   "chain_path_end_changes_on_clone": 220, "chain_copies": 350,
-                  "chain_defaults_ops": 45, "chain_uncached_ops": 250},
+                  "chain_defaults_ops": 45, "chain_uncached_ops": 250,
+                  "ovl_reads_checked": 60000, "ovl_notifications_required": 11000,
+                  "ovl_value_changes": 10000,
+                  "ovl_route_cut_holder_still_reachable": 900,
+                  "ovl_container_replaced_on_holder_reached_by_several_routes": 250,
+                  "ovl_container_replaced_on_holder_after_route_cut": 160,
+                  "ovl_leaf_changes_in_container_replaced_after_route_cut": 95,
+                  "ovl_copies": 230, "ovl_leaf_changes_on_pickle": 180,
+                  "ovl_leaf_changes_on_clone": 140},
         "thorough": {"evaluations": 25000000, "reads_checked": 8000000, "relevant_changes": 1000000,
                      "value_changes": 800000, "notifications_required": 1000000,
                      "notifications_required_static": 300000,
@@ -187,7 +217,15 @@ META = {
                      "chain_changes_of_an_object_reached_through_a_property": 37000,
                      "chain_path_end_changes_on_pickle": 8000,
                      "chain_path_end_changes_on_clone": 7000, "chain_copies": 11000,
-                     "chain_defaults_ops": 450, "chain_uncached_ops": 2500},
+                     "chain_defaults_ops": 450, "chain_uncached_ops": 2500,
+                     "ovl_reads_checked": 2100000, "ovl_notifications_required": 390000,
+                     "ovl_value_changes": 350000,
+                     "ovl_route_cut_holder_still_reachable": 31000,
+                     "ovl_container_replaced_on_holder_reached_by_several_routes": 8700,
+                     "ovl_container_replaced_on_holder_after_route_cut": 5600,
+                     "ovl_leaf_changes_in_container_replaced_after_route_cut": 3300,
+                     "ovl_copies": 8000, "ovl_leaf_changes_on_pickle": 6300,
+                     "ovl_leaf_changes_on_clone": 4900},
     },
     "assumptions": [
         "the getters are pure functions of the declared dependencies; the harness recomputes the "
@@ -1617,6 +1655,7 @@ class _ShrinkingSink:
                           ChainHistory.pfx: ChainHistory,
                           ChainDefaultsHistory.collapse: ChainDefaultsHistory,
                           ChainUncachedHistory.collapse: ChainUncachedHistory,
+                          OverlapHistory.pfx: OverlapHistory,
                           }.get(witness.get("stratum"))
                 small = shrink(witness["spec"], witness["ops"], key, engine)
                 witness = dict(witness)
@@ -3183,6 +3222,529 @@ def gen_chain_uncached_history(rng, steps):
     return spec, ops
 
 
+# ---- overlapping-paths stratum ----------------------------------------------------------
+# One Property declares SEVERAL observe paths that overlap: one path is a prefix of another
+# (listed before or after it), paths run through the same names below different attributes that
+# hold the SAME object, paths that only differ in the leaf, the same path twice through aliases,
+# paths through a list of holders and through an attribute aliasing one of its elements, and
+# two- / three-level variants.  The graphs have shared holders (owner.a is owner.b, a holder in
+# owner.hs and in owner.a, two holders with one sub-holder, kids repeated in and shared between
+# lists); histories cut one route, replace / mutate containers on the shared part, then change
+# leaves.  Same laws as everywhere; a single mutation may legitimately reach a property once per
+# declared path (the at-most-once window is per path and event).
+
+class OKid(HasTraits):
+    x = Int
+    y = Int
+    w = Int
+
+
+class OHolder(HasTraits):
+    kids = List(Instance(OKid))
+    one = Instance(OKid)
+    sub = Instance("OHolder")
+    deep = Int          # 1: used as a sub-holder only (never gets a sub itself: no cycles)
+    w = Int
+
+
+def _ov_val(o, path):
+    """Value of one observe path (tuple of tokens; 'items' = the elements of a list)."""
+    if o is None:
+        return None
+    if not path:
+        return o
+    if path[0] == "items":
+        rest = path[1:]
+        return tuple([_ov_val(e, rest) for e in o])
+    return _ov_val(getattr(o, path[0]), path[1:])
+
+
+def _ov_fp(o, path):
+    """Identity of every object on the path + the values at its end."""
+    if o is None:
+        return None
+    if not path:
+        return o
+    if path[0] == "items":
+        rest = path[1:]
+        return tuple([_ov_fp(e, rest) for e in o])
+    child = getattr(o, path[0])
+    return (child if isinstance(child, HasTraits) else None, _ov_fp(child, path[1:]))
+
+
+def _ov_fn(paths):
+    def fn(o):
+        return tuple([_ov_val(o, p) for p in paths])
+    return fn
+
+
+def _ov_expr(path):
+    e = None
+    for tok in path:
+        if tok == "items":
+            e = e.list_items()
+        else:
+            e = _otrait(tok) if e is None else e.trait(tok)
+    return e
+
+
+def _ov_paths(text):
+    return tuple(tuple(p.strip().split(".")) for p in text.split(","))
+
+
+# name -> (cached, the overlapping paths in declaration order)
+OV_DECL = collections.OrderedDict([
+    # one path is a PREFIX of the other below two attributes that may hold the same holder
+    ("c_lf", (True, "a.kids.items.x, b.kids.items")),              # the longer one first
+    ("c_sf", (True, "b.kids.items, a.kids.items.x")),              # the shorter one first
+    ("u_lf", (False, "a.kids.items.x, b.kids.items")),
+    ("c_one", (True, "a.one.x, b.one")),                           # prefix at an Instance
+    ("c_one_sf", (True, "b.one, a.one.y")),
+    ("c_self", (True, "a.kids.items.y, a.kids.items")),            # prefix through the SAME attribute
+    # same names, different leaves / the same path twice through aliases
+    ("c_div", (True, "a.kids.items.x, b.kids.items.y")),
+    ("c_same", (True, "a.kids.items.x, b.kids.items.x")),
+    ("u_same", (False, "b.kids.items.y, a.kids.items.y")),
+    # three routes, three lengths
+    ("c_tri", (True, "a.kids.items.x, b.kids.items, c.kids.items.y, c.one")),
+    # one level deeper (holders sharing a sub-holder)
+    ("c_sub", (True, "a.sub.kids.items.x, b.sub.kids.items, c.sub")),
+    ("c_sub_sf", (True, "c.sub, b.sub.kids.items, a.sub.kids.items.y")),
+    # a list of holders and an attribute that aliases one of its elements
+    ("c_hs", (True, "hs.items.kids.items.x, a.kids.items")),
+    ("c_hs_sf", (True, "b.kids.items.x, hs.items.kids.items")),
+])
+OV_PATHS = collections.OrderedDict((k, _ov_paths(v[1])) for k, v in OV_DECL.items())
+OV_PROPS = list(OV_DECL)
+OV_NPROPS = len(OV_PROPS)
+OV_MAXPATHS = max(len(p) for p in OV_PATHS.values())
+
+
+def _ov_class(name, form, static):
+    traits = dict(a=Instance(OHolder), b=Instance(OHolder), c=Instance(OHolder),
+                  hs=List(Instance(OHolder)))
+    props = collections.OrderedDict()
+    for i, (pname, (cached, text)) in enumerate(OV_DECL.items()):
+        paths = OV_PATHS[pname]
+        f = form if form != "mixed" else ("str", "strlist", "expr", "exprlist")[i % 4]
+        if f == "str":
+            e = text
+        elif f == "strlist":
+            e = [".".join(p) for p in paths]
+        elif f == "expr":
+            e = _ov_expr(paths[0])
+            for p in paths[1:]:
+                e = e | _ov_expr(p)
+        else:
+            e = [_ov_expr(p) for p in paths]
+        props[pname] = (_ov_fn(paths), cached, e)
+    return _mini_class(name, traits, props, static=static)
+
+
+OVS = _ov_class("OVS", "str", ("c_lf", "c_one", "c_same", "c_sub", "c_hs_sf"))
+OVX = _ov_class("OVX", "expr", ("c_sf", "u_lf", "c_div", "c_tri", "c_hs"))
+OVM = _ov_class("OVM", "mixed", ())
+OV_CLASSES = {"OVS": OVS, "OVX": OVX, "OVM": OVM}
+OV_ROUTES = ("a", "b", "c")
+
+
+def gen_overlap_history(rng, steps):
+    spec = {"cls": rng.choice(sorted(OV_CLASSES)),
+            "listen": rng.choice(["none", "otc", "obs", "both", "both"]),
+            "dyn": rng.getrandbits(OV_NPROPS) | rng.getrandbits(OV_NPROPS),
+            "init": rng.choice(["alias_all", "alias_ab", "alias_ab", "alias_bc", "distinct",
+                                "late"])}
+    ops = []
+    for _ in range(steps):
+        c = rng.random()
+        op = {"r": rng.randrange(3), "m": rng.getrandbits(OV_NPROPS) | rng.getrandbits(OV_NPROPS),
+              "sel": rng.randrange(12), "own": rng.randrange(4)}
+        if c < 0.27:
+            op["op"] = "leaf"
+            op["x"] = [rng.randrange(10), rng.randrange(24), rng.randrange(2), rng.randrange(5)]
+        elif c < 0.42:
+            op["op"], op["x"] = "route_set", [rng.randrange(3), rng.randrange(-3, 12)]
+        elif c < 0.55:
+            op["op"] = "kids_assign"
+            op["x"] = [rng.randrange(12), rng.randrange(4), rng.randrange(-4, 16),
+                       rng.randrange(-4, 16)]
+        elif c < 0.67:
+            op["op"] = rng.choice(["k_append", "k_append", "k_insert", "k_pop", "k_set", "k_set",
+                                   "k_extend", "k_remove", "k_clear", "k_reverse", "k_setslice"])
+            op["x"] = [rng.randrange(12), rng.randrange(-3, 6), rng.randrange(-4, 16),
+                       rng.randrange(-4, 16)]
+        elif c < 0.72:
+            op["op"], op["x"] = "one_set", [rng.randrange(12), rng.randrange(-5, 16)]
+        elif c < 0.77:
+            op["op"], op["x"] = "sub_set", [rng.randrange(12), rng.randrange(-3, 8)]
+        elif c < 0.83:
+            op["op"] = rng.choice(["hs_append", "hs_pop", "hs_set", "hs_assign", "hs_insert"])
+            op["x"] = [rng.randrange(4), rng.randrange(-3, 12), rng.randrange(-3, 12)]
+        elif c < 0.86:
+            op["op"], op["x"] = "compound", [rng.randrange(1, 8), rng.randrange(-3, 12),
+                                             rng.randrange(-3, 12)]
+        elif c < 0.94:
+            op["op"], op["x"] = "copy", [rng.choice(COPY_KINDS)]
+        else:
+            op["op"], op["x"] = rng.choice(["irr", "kid_w", "holder_w"]), [rng.randrange(24)]
+        ops.append(op)
+    return spec, ops
+
+
+class OverlapHistory(MiniHistory):
+    pfx = "overlapping-paths/"
+    cpfx = "ovl_"
+
+    def fp(self, o):
+        return {p: tuple([_ov_fp(o, path) for path in paths]) for p, paths in OV_PATHS.items()}
+
+    # -- the object graph ----------------------------------------------------
+    def routes(self, o):
+        """(route label, holder) for every direct route of the owner."""
+        out = [(n, getattr(o, n)) for n in OV_ROUTES]
+        out += [("hs", h) for h in o.hs]
+        return [(n, h) for n, h in out if h is not None]
+
+    def holders(self, o):
+        out, seen = [], set()
+        for n, h in self.routes(o):
+            for x in (h, h.sub):
+                if x is not None and id(x) not in seen:
+                    seen.add(id(x))
+                    out.append(x)
+        return out
+
+    def kids(self, o):
+        out, seen = [], set()
+        for h in self.holders(o):
+            for k in list(h.kids) + [h.one]:
+                if k is not None and id(k) not in seen:
+                    seen.add(id(k))
+                    out.append(k)
+        return out
+
+    def nroutes(self, o, h):
+        """Over how many direct routes (incl. as a sub-holder) the owner reaches holder h."""
+        return len([1 for n, x in self.routes(o) if x is h or x.sub is h])
+
+    def hcands(self, o, deep=None):
+        out = self.holders(o)
+        seen = set(id(x) for x in out)
+        for x in self.hpool:
+            if id(x) not in seen:
+                seen.add(id(x))
+                out.append(x)
+        if deep is not None:
+            out = [h for h in out if bool(h.deep) == deep]
+        return out
+
+    def kcands(self, o):
+        out = self.kids(o)
+        seen = set(id(x) for x in out)
+        for x in self.kpool:
+            if id(x) not in seen:
+                seen.add(id(x))
+                out.append(x)
+        return out
+
+    def kid(self, o, ref, none_ok=False):
+        if ref < 0:
+            if none_ok and ref == -1:
+                return None
+            k = OKid(x=-ref % 4, y=(-ref + 1) % 3)
+            self.kpool.append(k)
+            del self.kpool[:-8]
+            return k
+        c = self.kcands(o)
+        return c[ref % len(c)]
+
+    def holder(self, o, ref, none_ok=True, deep=False):
+        if ref < 0:
+            if none_ok and ref == -1:
+                return None
+            h = OHolder(kids=[self.kid(o, -ref), self.kid(o, ref)][:-ref % 3], deep=int(deep))
+            self.hpool.append(h)
+            del self.hpool[:-8]
+            return h
+        c = self.hcands(o, deep)
+        if not c:
+            return self.holder(o, -2, none_ok, deep)
+        return c[ref % len(c)]
+
+    def make(self):
+        K = [OKid(x=i % 4, y=i % 3) for i in range(6)]
+        D = [OHolder(kids=[K[3], K[0]], one=K[3], deep=1), OHolder(kids=[K[4]], deep=1)]
+        H = [OHolder(kids=[K[0], K[1], K[0]], one=K[0], sub=D[0]),
+             OHolder(kids=[K[1], K[2]], one=K[2], sub=D[0]),
+             OHolder(kids=[], sub=D[1])]
+        self.kpool, self.hpool = K, H + D
+        init = self.spec.get("init", "alias_ab")
+        kw = {"alias_all": dict(a=H[0], b=H[0], c=H[0], hs=[H[0], H[1]]),
+              "alias_ab": dict(a=H[0], b=H[0], c=H[1], hs=[H[1], H[0], H[1]]),
+              "alias_bc": dict(a=H[1], b=H[0], c=H[0], hs=[H[2], H[0]]),
+              "distinct": dict(a=H[0], b=H[1], c=H[2], hs=[]),
+              "late": dict(a=H[1], b=H[1], c=H[0], hs=[H[1]])}[init]
+        if init == "late":
+            o = self.cls()
+            for n in ("hs", "c", "b", "a"):
+                setattr(o, n, kw[n])
+        else:
+            o = self.cls(**kw)
+        return o
+
+    def setup(self):
+        self.cls = OV_CLASSES[self.spec["cls"]]
+        # holders that lost one route of an owner while staying reachable over another one, and
+        # the containers put on such holders afterwards (held strongly: no id() reuse)
+        self.cut = []
+        self.replaced = []
+        self.attach(self.make(), "fresh")
+
+    def reaching(self, h):
+        """serial -> every property, for the live owners that reach holder h."""
+        return {q.sn: OV_PROPS for q in self.live
+                if any(x is h for x in self.holders(q.obj))}
+
+    def note_cuts(self, o, before):
+        """A route moved away from a holder that the owner still reaches: remember it."""
+        after = self.holders(o)
+        now = collections.Counter((m, id(x)) for m, x in self.routes(o))
+        gone_routes = []
+        for n, h in before:          # with multiplicity (a holder twice in the list)
+            if now[(n, id(h))] > 0:
+                now[(n, id(h))] -= 1
+            else:
+                gone_routes.append(h)
+        for h in gone_routes:
+            for x in (h, h.sub):
+                if x is not None and any(x is y for y in after):
+                    self.count("route_cut_holder_still_reachable")
+                    if not any(x is y for y in self.cut):
+                        self.cut.append(x)
+        del self.cut[:-12]
+
+    def one(self, op):
+        name, x = op["op"], op["x"]
+        r = self.live[-1] if op["own"] or len(self.live) == 1 else \
+            self.live[op["sel"] % len(self.live)]
+        o = r.obj
+        touched, nev, fam = None, 1, name
+        after = None
+        if name == "leaf":
+            mine = self.kids(o)
+            hot = [k for h in self.replaced for k in h.kids if any(k is y for y in mine)]
+            if x[0] < 3 and hot:
+                k = hot[x[1] % len(hot)]
+            elif x[0] < 8 and mine:
+                k = mine[x[1] % len(mine)]
+            else:
+                c = self.kcands(o)
+                k = c[x[1] % len(c)]
+            where = "reachable" if any(k is y for y in mine) else "unreachable"
+            if any(k is y for y in hot):
+                where = "in-container-replaced-after-route-cut"
+                self.count("leaf_changes_in_container_replaced_after_route_cut")
+            attr = "xy"[x[2]]
+
+            def fn():
+                v = getattr(k, attr)
+                setattr(k, attr, x[3] if v != x[3] else (x[3] + 1) % 5)
+            fam = "leaf-set/" + where
+
+            def after():
+                if where != "unreachable":
+                    self.count("leaf_changes_on_" + _okind(r.origin))
+        elif name == "route_set":
+            attr = OV_ROUTES[x[0]]
+            new = self.holder(o, x[1])
+            before = self.routes(o)
+            touched = {r.sn: OV_PROPS}
+
+            def fn():
+                setattr(o, attr, new)
+            fam = "route-set"
+
+            def after():
+                self.note_cuts(o, before)
+        elif name == "compound":
+            kw = {}
+            for i, n in enumerate(OV_ROUTES):
+                if x[0] >> i & 1:
+                    kw[n] = self.holder(o, x[1 + i % 2] + i)
+            before = self.routes(o)
+            touched = {r.sn: OV_PROPS}
+            nev = len(kw)
+
+            def fn():
+                o.trait_set(**kw)
+            fam = "compound"
+
+            def after():
+                self.note_cuts(o, before)
+        elif name.startswith("hs_"):
+            a, b = self.holder(o, x[1], none_ok=False), self.holder(o, x[2], none_ok=False)
+            before = self.routes(o)
+            touched = {r.sn: OV_PROPS}
+            nev = 2
+
+            def fn():
+                lst = o.hs
+                n = len(lst)
+                if name == "hs_append":
+                    lst.append(a)
+                elif name == "hs_insert":
+                    lst.insert(x[0], a)
+                elif name == "hs_pop":
+                    if n:
+                        lst.pop(x[0] % n)
+                elif name == "hs_set":
+                    if n:
+                        lst[x[0] % n] = a
+                else:
+                    o.hs = [a, b, a][:x[0]]
+                if len(o.hs) > 4:
+                    del o.hs[4:]
+            fam = "holder-list"
+
+            def after():
+                self.note_cuts(o, before)
+        elif name == "kids_assign" or name.startswith("k_"):
+            hs = self.holders(o)
+            cut = [h for h in self.cut if any(h is y for y in hs)]
+            if name == "kids_assign" and x[1] < 2 and cut:
+                h = cut[x[0] % len(cut)]
+            elif hs:
+                h = hs[x[0] % len(hs)]
+            else:
+                h = self.hpool[x[0] % len(self.hpool)]
+            touched = self.reaching(h)
+            if name == "kids_assign":
+                a, b = self.kid(o, x[2]), self.kid(o, x[3])
+                new = [[a, b], [a, b, a], list(h.kids), [a]][x[1]]
+
+                def fn():
+                    h.kids = new
+                fam = "container-replaced"
+                was_cut = any(h is y for y in self.cut)
+                self.count("container_replaced")
+                if max([self.nroutes(q.obj, h) for q in self.live]) > 1:
+                    self.count("container_replaced_on_holder_reached_by_several_routes")
+
+                def after():
+                    if was_cut:
+                        self.count("container_replaced_on_holder_after_route_cut")
+                        if not any(h is y for y in self.replaced):
+                            self.replaced.append(h)
+                        del self.replaced[:-6]
+            else:
+                a, b = self.kid(o, x[2]), self.kid(o, x[3])
+                nev = 2
+
+                def fn():
+                    lst = h.kids
+                    n = len(lst)
+                    if name == "k_append":
+                        lst.append(a)
+                    elif name == "k_insert":
+                        lst.insert(x[1], a)
+                    elif name == "k_extend":
+                        lst.extend([a, b])
+                    elif name == "k_pop":
+                        if n:
+                            lst.pop(x[1] % n)
+                    elif name == "k_remove":
+                        if n:
+                            lst.remove(lst[x[1] % n])
+                    elif name == "k_set":
+                        if n:
+                            lst[x[1] % n] = a
+                    elif name == "k_setslice":
+                        lst[max(0, x[1]):max(0, x[1]) + 1] = [a, b]
+                    elif name == "k_reverse":
+                        lst.reverse()
+                    else:
+                        del lst[:]
+                    if len(lst) > 6:
+                        del lst[6:]
+                fam = "container-mutated"
+        elif name == "one_set":
+            hs = self.holders(o) or self.hpool
+            h = hs[x[0] % len(hs)]
+            new = self.kid(o, x[1], none_ok=True)
+            touched = self.reaching(h)
+
+            def fn():
+                h.one = new
+            fam = "holder-instance-set"
+        elif name == "sub_set":
+            hs = [h for h in (self.holders(o) or self.hpool) if not h.deep] or \
+                [h for h in self.hpool if not h.deep]
+            h = hs[x[0] % len(hs)]
+            new = self.holder(o, x[1], deep=True)
+            touched = self.reaching(h)
+            old = h.sub
+
+            def fn():
+                h.sub = new
+            fam = "sub-holder-set"
+
+            def after():
+                # the old sub-holder may still be reached through another holder's sub
+                if old is not None and old is not new:
+                    for q in self.live:
+                        if any(old is y for y in self.holders(q.obj)) and \
+                                any(h is y for y in self.holders(q.obj)):
+                            self.count("route_cut_holder_still_reachable")
+                            if not any(old is y for y in self.cut):
+                                self.cut.append(old)
+        elif name == "copy":
+            holder = []
+            kind = x[0]
+
+            def fn():
+                if kind.startswith("pickle"):
+                    holder.append(pickle.loads(pickle.dumps(o, int(kind[6:]))))
+                elif kind == "deepcopy":
+                    holder.append(copy.deepcopy(o))
+                elif kind == "clone":
+                    holder.append(o.clone_traits())
+                else:
+                    holder.append(o.clone_traits(copy=kind[6:]))
+            fam = "copy/" + _okind(kind)
+        elif name == "kid_w":
+            c = self.kcands(o)
+            k = c[x[0] % len(c)]
+
+            def fn():
+                k.w += 1
+            fam = "irrelevant"
+        elif name == "holder_w":
+            c = self.hcands(o)
+            h = c[x[0] % len(c)]
+
+            def fn():
+                h.w += 1
+            fam = "irrelevant"
+        else:
+            def fn():
+                o.irr += 1
+            fam = "irrelevant"
+        # one mutation may reach a property once per declared path
+        self.judged_step(fam, fn, touched, nev * OV_MAXPATHS, reads=0)
+        if after is not None:
+            after()
+        if name == "copy":
+            new = holder[0]
+            self.attach(new, x[0])
+            self.count("copies")
+            self.count("copies_" + _okind(x[0]))
+            # the copy of a holder that is known to have lost a route is such a holder too when
+            # it is the same object (shallow clones); deep copies start with a clean slate
+            if len(self.live) > 3:
+                del self.live[0]
+        self.judged_step("reads", lambda: None, None, 1, reads=op["r"], mask=op["m"])
+
+
 def midflight(ctx, rng):
     """Unjudged observation: reads made inside a change handler of the dependency itself
     (a static `_a_changed`) run before the observer that invalidates the cache."""
@@ -3260,6 +3822,7 @@ def run(ctx):
             ("churn", gen_churn_history, ChurnHistory, ctx.scale(320, 9000), 30),
             ("cm", gen_cm_history, ComparisonModeHistory, ctx.scale(288, 9000), 25),
             ("chain", gen_chain_history, ChainHistory, ctx.scale(352, 11000), 25),
+            ("ovl", gen_overlap_history, OverlapHistory, ctx.scale(256, 9000), 25),
             # strata of open findings (every failure collapses into the finding's key)
             ("chain0", gen_chain_defaults_history, ChainDefaultsHistory, ctx.scale(48, 480), 4),
             ("chainu", gen_chain_uncached_history, ChainUncachedHistory, ctx.scale(48, 480), 8)):
